@@ -52,7 +52,8 @@ def gen_cell(rng, col, codec, pkg):
         return str(rng.choice([0, 1, 10 ** w - 1, rng.randrange(0, 10 ** w)]))
     if pyt == 'datetime':
         d = iu.gen_datetime(rng, fc.get('field_date_format', '%y%m%d'))
-        return d.strftime('%Y-%m-%d %H:%M:%S')
+        # ISO form: date and time separated by a blank or by the letter T (both are ISO 8601 spellings of the same value)
+        return d.strftime('%Y-%m-%d %H:%M:%S') if rng.random() < 0.7 else d.strftime('%Y-%m-%dT%H:%M:%S')
     if fc['field_type'] in ('LLVAR', 'LLLVAR'):
         mx = 99 if fc['field_type'] == 'LLVAR' else 999
         n = rng.choice([1, 2, 10, mx, rng.randrange(1, mx + 1), rng.randrange(1, 25)])
@@ -77,6 +78,21 @@ def tweak(rng, s, special):
             i = rng.choice([0, len(s) - len(ch), rng.randrange(0, len(s) - len(ch) + 1)])
             s[i:i + len(ch)] = ch
     return ''.join(s).replace('\r', ' ').replace('\n', ' ')
+
+
+def same_cell(col, a, b):
+    """cell equality: text, except for date-time columns where two ISO spellings of one instant are the same value"""
+    if a == b:
+        return True
+    from cardutil.config import config
+    fc = config['bit_config'].get(col[2:], {}) if col.startswith('DE') else {}
+    if fc.get('field_python_type') == 'datetime' and a and b:
+        import datetime
+        try:
+            return datetime.datetime.fromisoformat(a) == datetime.datetime.fromisoformat(b)
+        except ValueError:
+            return False
+    return False
 
 
 def make_csv(rows, cols):
@@ -161,7 +177,8 @@ def impl_eval(case):
         why = f'{len(rows)} rows in, {len(got)} rows out'
     else:
         for i, (a, b) in enumerate(zip(rows, got)):
-            bad = [c for c in cols if a.get(c, '') != b.get(c, '') and not (case.get('supplied_only') and a.get(c, '') == '')]
+            bad = [c for c in cols if not same_cell(c, a.get(c, ''), b.get(c, ''))
+                   and not (case.get('supplied_only') and a.get(c, '') == '')]
             if bad:
                 why = f'row {i + 1}: column {bad[0]} was {a.get(bad[0], "")!r}, came back {b.get(bad[0])!r}'
                 break
@@ -179,8 +196,16 @@ def model_line(case):
         return None          # a configuration the model's packaged tables do not have: judged by the round trip itself
     rows = ['|'.join([]) for _ in ()]
     wires = []
+    from cardutil.config import config
+    def norm(k, v):
+        # the model's date parser reads 'YYYY-MM-DD HH:MM:SS'; the letter T between date and time is the same value in the
+        # other ISO spelling (what the installed date parser makes of it is measured on the implementation side)
+        fc = config['bit_config'].get(k[2:], {}) if k.startswith('DE') else {}
+        if fc.get('field_python_type') == 'datetime' and len(v) == 19 and v[10] == 'T':
+            return v[:10] + ' ' + v[11:]
+        return v
     for r in case['rows']:
-        wires.append(';'.join(f'{iu.key_wire(k)}=s{common.dotted(v)}' for k, v in r.items()))
+        wires.append(';'.join(f'{iu.key_wire(k)}=s{common.dotted(norm(k, v))}' for k, v in r.items()))
     return f"cli.csvrows\t{case['codec']}\t{case['codec']}\t" + '|'.join(wires)
 
 
@@ -284,6 +309,15 @@ def explore(run, tier):
                             for v, w in (('A\n\nB', 'M1'), ('A\n  \nB', 'LINE\n\nTWO'), ('\nX', ' \n \n '), ('X\n', 'M4'),
                                          ('one,\n"two"\n\n\nthree', 'M5'), ('plain', 'M6'))]
                     cases.append({'rows': rows, 'cols': ['MTI', 'DE2', 'DE42', 'PDS0023'], 'codec': codec, 'b': b, 'cli': cli})
+    # card numbers keyed in GROUPS (blanks or hyphens between groups of digits) and date-times with the letter T: a cell is
+    # a value, however it happens to look
+    for codec in ('latin_1', 'cp500'):
+        for cli in (True, False):
+            rows = [{'MTI': '1240', 'DE2': v, 'DE12': t, 'DE42': 'M'.ljust(15)}
+                    for v, t in (('5412 7500 0000 0001', '2024-02-29T23:59:58'), ('5412-7500-0000-0001', '2024-02-29 23:59:58'),
+                                 ('4000 123456 78901', '2031-12-31T00:00:00'), ('6011 0000 0000 0004 123', '2000-01-01T12:00:00'),
+                                 ('5412750000000001', '1999-12-31T23:59:59'))]
+            cases.append({'rows': rows, 'cols': ['MTI', 'DE2', 'DE12', 'DE42'], 'codec': codec, 'b': int(cli), 'cli': cli})
     # tables whose FIRST column is a text column, with values that begin like something else to a line-oriented reader:
     # a hash, a semicolon, two slashes, a blank, a quote — every line of a table is a row
     if 'DE42' in cols and 'DE38' in cols:
